@@ -224,7 +224,11 @@ class Objects:
         return ex.exec_block(node.body, [st])
 
     def defaultdict(self, ex, st, args, node):
-        raise EngineError("defaultdict outside the subset")
+        """collections.defaultdict(list): an empty dictionary whose missing keys read as []."""
+        from .engine import Builtin
+        if len(args) != 1 or not (isinstance(args[0], Builtin) and args[0].name == "list"):
+            raise EngineError("%s:L%d: defaultdict of anything but list outside the subset" % (ex.fnname, node.lineno))
+        return DictV(lambda k: False, lambda k: None, 0, "any", "any", default=Seq.of([], "list"))
 
     def set_union(self, ex, st, s, args, node):
         """set().union(*X) for a sequence X of integer sequences: e is a member iff some X[j][p] equals e.
